@@ -3,7 +3,7 @@ from mats import *
 
 RULE = ("seeded random integer matrices (1-3 x 1-4 quick, up to 5 x 6 thorough; coefficients from {0,+-1,+-2,+-3,5,-7} and "
         "big-M shaped rows; boolean / integer / negative / degenerate boxes; infeasible, forcing and redundant rows); "
-        "tighten_column_bounds, row_bounds and n_row_combinations compared with the model; oracle: full enumeration of the "
+        "tighten_column_bounds, row_bounds, A_min, A_max, column_bounds and n_row_combinations compared with the model; oracle: full enumeration of the "
         "box (<= 20000 points quick); non-trivial = some |coefficient| > 1 or a non-boolean column; distinct = distinct matrices")
 ASSUMPTIONS = ["at least one row and one column (NumPy raises on an empty axis inside tighten_column_bounds)",
                "declared bounds within the library's default integer range (int16)",
@@ -22,6 +22,11 @@ def do_case(ctx, inp):
     lbs, ubs = [int(v) for v in tb[0].tolist()], [int(v) for v in tb[1].tolist()]
     rb = g.row_bounds().tolist()
     ncomb = [int(v) for v in np.asarray(g.n_row_combinations).tolist()]
+    amin = [[int(v) for v in r] for r in np.asarray(g.A_min).tolist()]
+    amax = [[int(v) for v in r] for r in np.asarray(g.A_max).tolist()]
+    cb = np.asarray(g.column_bounds()).tolist()
+    if [[int(a), int(b)] for a, b in zip(cb[0], cb[1])] != [list(b) for b in p["bnds"]]:
+        ctx.case(inp, nontriv, tg); ctx.fail("column-bounds-not-the-declared-bounds", {"reported": cb, "declared": p["bnds"]}); return
     small = box_size(p) <= (20000 if ctx.quick else 200000)
     if small:
         sols = solutions(p)
@@ -37,6 +42,10 @@ def do_case(ctx, inp):
         pts = list(box(p))
         for i, (b, cs) in enumerate(p["rows"]):
             vals = [dot(cs, x) - b for x in pts]
+            for j, c in enumerate(cs):
+                terms = [c * x[j] for x in pts]
+                if pts and (amin[i][j], amax[i][j]) != (min(terms), max(terms)):
+                    ctx.case(inp, nontriv, tg); ctx.fail("A_min/A_max-entry-not-the-extreme-term", {"row": i, "column": j, "reported": [amin[i][j], amax[i][j]], "exact": [min(terms), max(terms)]}); return
             if [min(vals), max(vals)] != [int(rb[i][0]), int(rb[i][1])]:
                 ctx.case(inp, nontriv, tg); ctx.fail("row-bounds-not-exact", {"row": i, "reported": rb[i], "exact": [min(vals), max(vals)]}); return
             nz = [j for j, c in enumerate(cs) if c != 0]
@@ -47,7 +56,7 @@ def do_case(ctx, inp):
         tg.add("box-not-enumerated")
     ctx.case(inp, nontriv, tg)
     ctx.op({"op": "tighten", "p": p}, {"bnds": [[l, u] for l, u in zip(lbs, ubs)]})
-    ctx.op({"op": "row_bounds", "p": p}, {"bnds": [[int(a), int(b)] for a, b in rb], "ncomb": ncomb})
+    ctx.op({"op": "row_bounds", "p": p}, {"bnds": [[int(a), int(b)] for a, b in rb], "ncomb": ncomb, "amin": amin, "amax": amax})
 
 
 def run(ctx):
